@@ -118,12 +118,8 @@ func checkC12(c *Ctx) {
 		if _, ok := m.isKVCall(valueOf(in), ""); ok {
 			return true
 		}
-		if g, ok := in.(*ssa.Go); ok {
-			for _, t := range m.funcValueTargets(g.Call.Value) {
-				if m.reachesStoreOp(t) {
-					return true
-				}
-			}
+		if m.spawnsStoreOp(in) {
+			return true
 		}
 		return false
 	}, isTick)
